@@ -53,6 +53,7 @@ def check(ck):
     r10_9(ck)
     r10_10(ck)
     r10_11(ck)
+    r10_12(ck)
 
 
 def _ret_tuples(fi):
@@ -373,6 +374,22 @@ def r10_3(ck):
                        field, 'generated flow steps would be demoted to '
                        'sequential derivers' if field == 'flow' else
                        'the engine would not learn about them'))
+    # the flow is reported per step (leaf paths), by the same flattening as
+    # the processes and steps: the engine looks dependencies up by step path
+    for q in ('Store.insert', 'Store.divide'):
+        fq = ck.fn(q, 'core.store')
+        fl = [c for c in A.calls_in(fq.node, ('extend', 'append'))
+              if A.unparse(A.call_receiver(c)) == 'flow_updates' and c.args]
+        for c in fl:
+            okf = derives(fq.node, c.args[0], lambda x: isinstance(
+                x, ast.Call) and A.call_name(x) == 'dict_to_paths', at=c)
+            ck.require(okf, 'R10.3', fq, c,
+                       'the reported flow is flattened to one entry per '
+                       'step (dict_to_paths)',
+                       '%s reports the flow one level deep: for steps in a '
+                       'nested compartment the engine finds no '
+                       'dependencies under the step path and registers '
+                       'them as legacy sequential derivers' % q, c)
     dv = ck.fn('Store.divide', 'core.store')
     ext = [c for c in A.calls_in(dv.node, 'extend')
            if A.unparse(A.call_receiver(c)) == 'flow_updates']
@@ -837,3 +854,25 @@ def r10_11(ck, rule='R10.11'):
                'never applied and the process, still holding an unfetched '
                'command, cannot be invoked again',
                loops[0] if loops else None)
+
+
+def r10_12(ck):
+    ck.rule('R10.12', 'nothing deleted is invoked or applied again and new '
+            'processes start at their creation: front entries of deleted '
+            'paths are dropped before polling, and the engine classifies a '
+            'wrapped process by asking the process itself (shared with C01 '
+            'R01.5 and C13 R13.1)')
+    from . import c01, c13
+    rf = RunFor(ck)
+    c01.r01_5(ck, rf)
+    c13.r13_1(ck, only=('is_step',), rule='R10.12')
+    OLD, NEW = ('R01.5',), 'R10.12'
+
+    for o in ck.obligations:
+        if o['rule'] in OLD:
+            o['rule'] = NEW
+    for v in ck.violations:
+        if v.rule in OLD:
+            v.rule = NEW
+    for r in OLD:
+        ck.rules.pop(r, None)
